@@ -8,6 +8,7 @@ import (
 	"os"
 	"sort"
 	"strings"
+	"sync"
 	"time"
 
 	"golang.org/x/tools/go/packages"
@@ -29,13 +30,15 @@ type World struct {
 	BuildCfg string
 	LoadS    float64
 
-	genv      *guardEnv
-	funcSet   map[*ssa.Function]bool
-	subst     map[ssa.Value]string
-	callers   map[*ssa.Function][]ssa.CallInstruction
-	fieldFns  map[*types.Var][]*ssa.Function
-	fnOfInstr map[ssa.Instruction]*ssa.Function
-	fileOf    map[*ast.File]*packages.Package
+	genv       *guardEnv
+	funcSet    map[*ssa.Function]bool
+	nameCache  sync.Map
+	transCache sync.Map
+	subst      map[ssa.Value]string
+	callers    map[*ssa.Function][]ssa.CallInstruction
+	fieldFns   map[*types.Var][]*ssa.Function
+	fnOfInstr  map[ssa.Instruction]*ssa.Function
+	fileOf     map[*ast.File]*packages.Package
 }
 
 // Scope table (DESIGN §2): packages that are judged.
